@@ -123,8 +123,7 @@ theorem noCtr_frame (p : Sess) (hq : noCtr p = true) : ∀ (env : Env) (s : St),
     · rfl
   | _ =>
     intro env s
-    simp only [exec]
-    first | rfl | (split <;> rfl)
+    simp only [exec] <;> first | rfl | (split <;> rfl)
 
 /-- one round of IOS `writeMem` -/
 def iosWriteMemRound : Sess :=
